@@ -19,7 +19,7 @@ for log in glob.glob("/tmp/confirm_wt*_*.log"):
     if tests and w and wo:
         ok = tests.group(2) == "0" and w.group(1) != "0" and wo.group(1) == "0"
         meta["confirmed"] = {
-            "by": "main session, in the scratch worktree /tmp/wt_%s (removed afterwards)" % m.group(1),
+            "by": "main session, in the scratch worktree %s (removed afterwards)" % os.path.basename(log).split("_")[1].join(["/tmp/",""]),
             "what_was_run": "git apply patch.diff; cmake --build build; ctest --test-dir build -j8 (serial suite); run_demo.sh with the patch; "
                             "git checkout; rebuild; run_demo.sh without the patch",
             "suite_with_mutant": "%s tests, %s failed" % (tests.group(3), tests.group(2)),
